@@ -7,7 +7,7 @@ import oracles
 
 FILES = ['include/urcu/static/wfstack.h', 'include/urcu/static/lfstack.h', 'include/urcu/static/rculfstack.h', 'include/urcu/wfstack.h', 'include/urcu/lfstack.h', 'src/wfstack.c', 'src/lfstack.c']
 TRUSTED = ['Coq 8.16.1 kernel; no axioms (closed under the global context); no native_compute',
-           'extraction: ExtrOcamlBasic only; ocaml/wfs_driver.ml, ocaml/lfs_driver.ml',
+           'extraction: ExtrOcamlBasic only; ocaml/wfs_driver.ml, ocaml/lfs_driver.ml, ocaml/lfsrcu_driver.ml, ocaml/wfsmx_driver.ml',
            'harness: verif_hooks.h, sched.c (simulated store buffers, mutex emulation); canonicalisation in tools/props/C11.py',
            'modelled: wfstack push / pop_all / blocking iteration on x86-TSO (poll(10ms) of the adaptative wait = one wait step); lfstack push / pop / pop_all / empty with the '
            'internal pop mutex as a lock word (a failed acquisition is a skipped choice), node->next initialisation as a private post-write; the rcu-protected legacy '
@@ -16,6 +16,7 @@ WFS_MODEL_PROGS = ['P0P1/aa/P2', 'P0/P1/aaa', 'P0P1P2/aa', 'aP0a/P1P2/a']
 WFS_STATE_PROGS = ['P0s/P1', 'P0P1s/a', 'P0s/P1/e', 'P0P1ss/P2']      # the LAST answer of pop_with_state against pushes / pop_all landing right after the pop's exchange
 WFS_REUSE_PROGS = ['P0P1pa/AR', 'P0P1P2pa/AR', 'P0P1ppa/AR']      # a pop frozen between its loads and its head cmpxchg, against a mutex-protected pop_all whose owner pushes the top node again (ABA unless the pop mutex excludes it)
 LFSRCU_PROGS = ['P0P1/P2/pp', 'P0/P1p/pP2', 'P0P1/pr/pr/e', 'P0/P1/P2/ppp', 'P0P1P2/pr/pp', 'P0pr/P1p/P2e']      # legacy cds_lfs_rcu: pop under RCU, reuse after a grace period
+WFSMX_PROGS = ['P1P2/prp/rP3p', 'P1P2P3/pr/pr', 'P1/prprp/P2P3', 'P1P2/prpr/pp', 'P1P2P3P4/prprpr/prp', 'P1/pr/pr/P2']      # mutex-protected pop, the popped node pushed again at once (model WfsMx.v)
 WFS_ORACLE_PROGS = ['P0P1/ps/P2e', 'P0P1P2/pp/sa', 'P0P1/nn/P2p', 'P0/P1/pe/se', 'P0P1/a/p/P2']
 LFS_PROGS = ['P0P1p/are', 'P0P1P2/pr/a', 'P0P1/pr/pr/e', 'P0P1P2/ar/pp', 'P0P1/p/a/P2r', 'P0P1/par/pe']
 
@@ -120,6 +121,42 @@ def project_lfsrcu(prog, raw):
     out.append('.')
     return out
 
+def project_wfsmx(prog, raw):
+    """implementation trace of scen_wfs (ops P, p, r) -> action lines of WfsMx/WfsMxExec.v (mexec)"""
+    def nid(v):
+        if v in ('0', '0x0'): return 0
+        if v in ('1', '0x1'): return 1
+        m = re.match(r'&?n\+(\d+)$', v)
+        return 2 + int(m.group(1)) // 8 if m else -1
+    out = ['T ' + prog]; cur = {}; pend = {}
+    for l in raw.splitlines():
+        l = re.sub(r' mo=-?\d+', '', l)
+        p = l.split()
+        if len(p) < 2 or not p[0].isdigit(): continue
+        t, k = p[0], p[1]
+        if k == 'call':
+            cur[t] = p[2]
+            if p[2] == 'push': out.append('CP %s %d' % (t, nid(p[3])))
+            elif p[2] == 'pop': out.append('CQ %s' % t)
+        elif k == 'ret':
+            if p[2] == 'pop' and t in pend: out[pend.pop(t)] = 'UL %s %d' % (t, nid(p[3]))
+            cur.pop(t, None)
+        elif k == 'xchg' and p[2] == 'head+0': out.append('XC %s %d %d' % (t, nid(p[3][2:]), nid(p[5])))
+        elif k == 'flush':
+            m = re.match(r'n\+(\d+)$', p[2])
+            if m: out.append('ST %s %d %d' % (t, 2 + int(m.group(1)) // 8, nid(p[3][2:])))
+        elif k == 'lock' and p[2] == 'lock+0': out.append('LK %s' % t)
+        elif k == 'unlock' and p[2] == 'lock+0': pend[t] = len(out); out.append('UL %s -1' % t)
+        elif k == 'cas' and p[2] == 'head+0': out.append('CAS %s %d %d %d' % (t, nid(p[3][4:]), nid(p[4][4:]), nid(p[6])))
+        elif k == 'load' and cur.get(t) == 'pop':
+            if p[2] == 'head+0': out.append('LH %s %d' % (t, nid(p[4])))
+            else:
+                m = re.match(r'n\+(\d+)$', p[2])
+                if m: out.append('LN %s %d %d' % (t, 2 + int(m.group(1)) // 8, nid(p[4])))
+        elif k == 'note' and p[2] == 'norepush': out.append('NR %s' % t)
+    out.append('.')
+    return out
+
 def gen(ctx, progs, n, tso, pid):
     out = []
     for prog in progs[:3 if ctx.quick() else len(progs)]:
@@ -177,6 +214,36 @@ def run(ctx):
                         if nrej <= 2: ctx.fail('correspondence', 'LfsRcuExec accepts the trace of static/rculfstack.h', 'prog %s schedule %s...: the model does not accept the implementation trace: %s' % (p, s[:60], r),
                                                concrete={'scenario': 'scen_lfsrcu', 'prog': p, 'schedule': s + '012345' * 150, 'verdict': r})
                 ctx.cov['traces_validated_against_impl'] += len(blocks) - nrej; ctx.cov['disagreements'] = ctx.cov.get('disagreements', 0) + nrej
+    # wfstack with the mutex-protected single pop and immediate re-use of the popped node: refinement of the implementation traces against WfsMx/WfsMxExec.v
+    # (sequentially consistent schedules: every step is followed by the flush of the thread's own store buffer - see the header of WfsMx.v)
+    if wimpl:
+        fl = lambda t: t + chr(ord('a') + int(t))
+        mc = []
+        for prog in WFSMX_PROGS[:3 if ctx.quick() else len(WFSMX_PROGS)]:
+            th = [str(i) for i in range(prog.count('/') + 1)]
+            for v in th:
+                for k in range(1, 16 if ctx.quick() else 40):
+                    mc.append((prog, fl(v) * k + ''.join(fl(u) * 60 for u in th if u != v)))
+        while len(mc) < (400 if ctx.quick() else 4000):
+            prog = ctx.rng.choice(WFSMX_PROGS); th = [str(i) for i in range(prog.count('/') + 1)]
+            mc.append((prog, ''.join(fl(t) * ctx.rng.choice([1, 1, 2, 3, 5, 9]) for t in (ctx.rng.choice(th) for _ in range(80)))))
+        mblocks = []
+        def moracle(p, s, cl, raw): mblocks.append((p, s, project_wfsmx(p, raw))); return oracle(p, s, cl, raw)
+        sctail = ''.join(fl(str(i)) for i in range(6)) * 150
+        corr_schedules(ctx, 'wfstack mutex-protected pop with node re-use, LIFO', wimpl, None, mc, canon_c, oracle=moracle, nontrivial=contended, tail=sctail, scenario='scen_wfs (cds_wfs_push, cds_wfs_pop_blocking, re-push)')
+        mdriver = build_model_driver(ctx, 'wfsmx', 'ExtractWfsMx.v', 'wfsmx_driver.ml')
+        if mdriver and mblocks:
+            rc2, out, err = sh([mdriver], inp='\n'.join('\n'.join(b) for _, _, b in mblocks) + '\n', timeout=300); res = out.splitlines(); nrej = 0
+            if len(res) != len(mblocks): ctx.fail('harness', 'wfsmx_driver output', 'expected %d verdicts, got %d: %s' % (len(mblocks), len(res), err[-300:]))
+            else:
+                for (p, s, _), r in zip(mblocks, res):
+                    if not r.startswith('ok'):
+                        nrej += 1
+                        if nrej <= 2: ctx.fail('correspondence', 'WfsMxExec accepts the trace of static/wfstack.h (push, mutex-protected pop, re-push)', 'prog %s schedule %s...: the model does not accept the implementation trace: %s' % (p, s[:60], r),
+                                               concrete={'scenario': 'scen_wfs', 'prog': p, 'schedule': s + sctail, 'verdict': r})
+                ctx.cov['traces_validated_against_impl'] += len(mblocks) - nrej; ctx.cov['disagreements'] = ctx.cov.get('disagreements', 0) + nrej
+                ctx.cov['input_distribution']['wfsmx'] = {'traces': len(mblocks), 'popper_waited_for_a_pending_link': sum(1 for _, _, b in mblocks if any(l.startswith('LN') and l.endswith(' 0') for l in b)),
+                                                          'pop_cmpxchg_failed': sum(1 for _, _, b in mblocks if any(l.startswith('CAS') and l.split()[2] != l.split()[4] for l in b))}
     for nm, src, progs, tso, tl in (('scen_wfs_plain', 'scen_wfs.c', WFS_MODEL_PROGS + WFS_ORACLE_PROGS, True, tail), ('scen_lfs_plain', 'scen_lfs.c', LFS_PROGS, False, '012345' * 150)):
         pimpl = build_scenario(ctx, nm, src, plain=True)
         if pimpl: corr_schedules(ctx, nm + ' LIFO with instrumented plain stores', pimpl, None, gen(ctx, progs, n // 2, tso, 'C11'), canon_c, oracle=oracle, nontrivial=contended, tail=tl, scenario=nm + ' (oracle only)')
